@@ -395,6 +395,20 @@ def run_history(ctx, variant, n, lim, plus, steps, save_at, record):
                     and twin.number_of_regret_minimizers == m.number_of_regret_minimizers
                     and twin.cumulative_regret.dtype == m.cumulative_regret.dtype):
                 fails.append(f"save/load at iteration {k}: the loaded minimiser differs from the saved one")
+        # ordinary "latest + best" checkpointing: two directories written one after the other at the same iteration, again and
+        # again; whatever directory was just written must load as the CURRENT state
+        if record and k <= 3:
+            if k == 0:
+                ck_dirs = (Path(tempfile.mkdtemp(dir=str(ctx.work))), Path(tempfile.mkdtemp(dir=str(ctx.work))))
+                run_history.ck_dirs = ck_dirs
+            for d_ in run_history.ck_dirs:
+                m.save(d_)
+                back = GameRegretMinimizer.load(d_)
+                if not (np.array_equal(back.cumulative_regret, m.cumulative_regret, equal_nan=True)
+                        and np.array_equal(back.cumulative_strategy, m.cumulative_strategy, equal_nan=True) and back.iteration == m.iteration):
+                    fails.append(f"checkpointing into two directories in turn: after save(dir) at iteration {m.iteration} (dir {'latest' if d_ is run_history.ck_dirs[0] else 'best'}, "
+                                 f"written before at earlier iterations), load(dir) gives iteration {back.iteration} / other tables")
+                    break
         delta = unclipped_delta(m, step) if plus else None
         try:
             impl_iterate(m, step)
